@@ -1,10 +1,67 @@
-(* C19 -- option resolution: flag > most specific config section > default.  Statements only. *)
+(* C19 -- option resolution: flag > most specific config section > default.
+   Statements only; model in Sys/Config.v, proofs in Sys/ConfigProofs.v, class tables in Gen/ConfigClasses.v
+   (regenerated from nbdime/config.py, the real argument parsers and docs/source/config.rst on every run). *)
 From Coq Require Import List NArith ZArith Bool String.
-From NB Require Import Base.Json Base.Res Diff.Codec Gen.ConfigClasses Sys.Config Sys.ConfigProofs.
+From NB Require Import Base.Json.
+From NB Require Import Base.Res.
+From NB Require Import Diff.Codec.
+From NB Require Import Gen.ConfigClasses.
+From NB Require Import Sys.Config.
+From NB Require Import Sys.ConfigProofs.
 Import ListNotations.
+
+(* For every entry point, every option its sections can set, every well-formed assignment of values to options of
+   documented sections spread over any number of files of different priority, and every set of flags: the value in
+   the parser's namespace is the flag, else the most specific documented section that sets it (each section
+   resolved over the files by priority, null = unset), else the built-in default. *)
+(* ---- BEGIN block to swap when the two deviations below are repaired: drop the two exception hypotheses ---- *)
+Theorem effective_value_spec :
+  forall ep o files flags,
+    In ep ep_names -> In o (options ep) -> o <> kIgnore ->
+    o <> kLog -> ~ (ep = kServer /\ o = kPort) ->
+    wf_filesb files = true ->
+    effective ep files flags o = Ok (spec_effective ep files flags o).
+Proof. exact effective_value_spec_full. Qed.
+Print Assumptions effective_value_spec.
+
+Theorem global_section_refuted :
+  exists ep files o, In ep ep_names /\ In o (options ep) /\ wf_filesb files = true /\
+    effective ep files [] o <> Ok (spec_effective ep files [] o).
+Proof. exact global_section_refuted_lemma. Qed.
+Print Assumptions global_section_refuted.
 
 Theorem server_port_refuted :
   exists files, wf_filesb files = true /\
-    effective (of_ascii "server") files [] (of_ascii "port") <> Ok (spec_effective (of_ascii "server") files [] (of_ascii "port")).
+    effective (of_ascii "server") files [] (of_ascii "port")
+    <> Ok (spec_effective (of_ascii "server") files [] (of_ascii "port")).
 Proof. exact server_port_refuted_lemma. Qed.
 Print Assumptions server_port_refuted.
+(* ---- END block ---- *)
+
+(* the working-directory file masks, key by key, whatever files of lower priority say *)
+Theorem cwd_file_wins :
+  forall ep o cwd rest flags,
+    In ep ep_names -> In o (options ep) -> o <> kIgnore -> o <> kLog -> ~ (ep = kServer /\ o = kPort) ->
+    wf_filesb (cwd :: rest) = true ->
+    (forall S f, In S (spec_sections ep) -> In f rest -> file_get f S o <> None -> file_get cwd S o <> None) ->
+    effective ep (cwd :: rest) flags o = effective ep [cwd] flags o.
+Proof. exact cwd_file_wins_full. Qed.
+Print Assumptions cwd_file_wins.
+
+(* 'Ignore' mappings are merged path by path, the most specific section winning for each path *)
+Theorem ignore_merge_pathwise :
+  forall ep files p,
+    In ep ep_names -> wf_filesb files = true ->
+    exists ign, installed_ignore ep files = Ok (JObj ign) /\ dget p ign = spec_ignore_path ep files p.
+Proof. exact ignore_merge_pathwise_full. Qed.
+Print Assumptions ignore_merge_pathwise.
+
+(* every documented (section, entry point) pair other than Global is among the classes build_config layers *)
+Theorem documented_sections_participate :
+  forall S cn, In (S, cn) doc_pairs -> S <> kGlobal -> participates S cn = true.
+Proof. exact documented_sections_participate_lemma. Qed.
+Print Assumptions documented_sections_participate.
+
+Theorem global_section_never_participates : forall cn, participates kGlobal cn = false.
+Proof. exact global_never_participates. Qed.
+Print Assumptions global_section_never_participates.
